@@ -177,17 +177,22 @@ Proof.
 Qed.
 
 
-Lemma print_dirs_rel ds : forallb (wf KDirective) ds = true -> forall st,
+Lemma print_dirs_rel ds : forallb (wf KDirective) ds = true -> forall v st,
   good st -> ctx st = c -> mode st = md ->
-  rel st (print_dirs cf w ds st) (sE (dirs_spec cf l en ds) (next_id st)) (Qe c md).
+  rel st (print_dirs cf w ds v st) (sE (dirs_spec cf l en ds v) (next_id st)) (Qe c md).
 Proof.
-  induction ds as [|d ds IH]; intros Hwf st Hg Hc Hm; cbn [print_dirs dirs_spec].
+  induction ds as [|d ds IH]; intros Hwf v st Hg Hc Hm; cbn [print_dirs dirs_spec].
   - apply rel_eret; [assumption | qe].
   - cbn [forallb] in Hwf. apply andb_prop in Hwf. destruct Hwf as [H1 H2].
     destruct d; try apply rel_efail. cbn [wf] in H1.
     destruct (lookup_directive name) as [[arglens rest]|]; [|apply rel_efail].
     destruct (negb (check_num_args arglens (length args))); [apply rel_efail|].
-    estep eval_list_rel. estep IH. apply rel_eret; [assumption | qe].
+    estep eval_list_rel.
+    eapply rel_ebind; [apply (rel_elift _ _ (Qe c md)); [assumption | intros; qe]|].
+    cbv beta; intros ? ? ? (-> & ? & ?) ?.
+    eapply rel_ebind; [apply (rel_elift _ _ (Qe c md)); [assumption | intros; qe]|].
+    cbv beta; intros ? ? ? (-> & ? & ?) ?.
+    estep IH. apply rel_eret; [assumption | qe].
 Qed.
 
 Lemma case_hit_rel sv vs : forallb (wf KExpr) vs = true -> forall st,
